@@ -148,6 +148,49 @@ def renderPtr : Nat → Segs → Nat → Nat → String
          "^S{" ++ bytesHex m sg (8 * s) (elemBytes ek) ++ "|}" ++ (if ek = 5 then bytesHex m sg (8 * s) 8 else "0")
        else "")
 
+/-- the byte regions `(segment, lo, hi)` of all objects reachable from the pointer at `(seg, w)`:
+    struct bodies, list bodies with their tag word, far-pointer landing pads; `none` if a pointer does not decode -/
+def regions : Nat → Segs → Nat → Nat → Option (List (Nat × Nat × Nat))
+  | 0, _, _, _ => none
+  | fuel + 1, m, seg, w =>
+    match getWord m seg w with
+    | none => none
+    | some p =>
+      let pads : List (Nat × Nat × Nat) :=
+        if p ≠ 0 ∧ kindA p = 2 then [(farSeg p, 8 * farOff p, 8 * farOff p + (if farDouble p then 16 else 8))] else []
+      match decode1 m seg w with
+      | none => none
+      | some .null => some pads
+      | some (.cap _) => some pads
+      | some (.struct sg s dw pc) =>
+        ((List.range pc).mapM (fun i => regions fuel m sg (s + dw + i))).map
+          (fun rs => pads ++ (if dw + pc = 0 then [] else [(sg, 8 * s, 8 * (s + dw + pc))]) ++ rs.flatten)
+      | some (.list sg s ek n dw pc) =>
+        if ek = 7 then
+          ((List.range n).mapM (fun i => (List.range pc).mapM (fun j => regions fuel m sg (s + i * (dw + pc) + dw + j)))).map
+            (fun rs => pads ++ [(sg, 8 * (s - 1), 8 * (s + n * (dw + pc)))] ++ (rs.map List.flatten).flatten)
+        else if ek = 6 then
+          ((List.range n).mapM (fun i => regions fuel m sg (s + i))).map
+            (fun rs => pads ++ (if n = 0 then [] else [(sg, 8 * s, 8 * (s + n))]) ++ rs.flatten)
+        else
+          let bytes := if ek = 1 then (n + 7) / 8 else n * elemBytes ek
+          some (pads ++ (if bytes = 0 then [] else [(sg, 8 * s, 8 * s + (bytes + 7) / 8 * 8)]))
+
+def disjoint (rs : List (Nat × Nat × Nat)) : Bool :=
+  let rec go : List (Nat × Nat × Nat) → Bool
+    | [] => true
+    | r :: rest => rest.all (fun q => r.1 ≠ q.1 || r.2.2 ≤ q.2.1 || q.2.2 ≤ r.2.1) && go rest
+  go rs
+
+/-- a message is valid when every pointer reachable from the root resolves inside its target segment, every
+    segment is a whole number of words, the root pointer is not part of any object, and distinct objects
+    (and landing pads) occupy disjoint storage -/
+def validMessage (m : Segs) : Bool :=
+  (List.range m.size).all (fun i => segBytes m i % 8 = 0) &&
+  match regions 64 m 0 0 with
+  | none => false
+  | some rs => disjoint ((0, 0, 8) :: rs) && rs.all (fun r => r.2.2 ≤ segBytes m r.1)
+
 def decodeTree (m : Segs) : String := renderPtr 64 m 0 0
 
 end Capnp.Spec.Encoding
